@@ -284,7 +284,7 @@ pub fn gen_layer(rng: &mut Rng, o: &GenOpts, cluster_bits: u32, top: bool, idx_i
             // larger than a block): outgrown at 8 / 16 MiB of host file;
             // now and then twice that, for a second relocation
             GROWTH_FULL.with(|f| f.set(true));
-            if rng.chance(1, 48) {
+            if rng.chance(1, 12) {
                 2 * rt_cover + cs * rng.below(64)
             } else {
                 rt_cover - cs * rng.below(8)
